@@ -8,3 +8,9 @@ import "github.com/elementsproject/glightning/glightning"
 func VerifBuildDirectClaimRoute(bolt11 *glightning.DecodedBolt11, scid string, maxTotalCLTVDelta uint32) ([]glightning.RouteHop, error) {
 	return buildDirectClaimRoute(bolt11, scid, maxTotalCLTVDelta)
 }
+
+// VerifStartUp connects the client's lightning-rpc handle to a unix socket
+// (onInit does this with the socket the plugin manifest names).
+func (cl *ClightningClient) VerifStartUp(rpcFile, lightningDir string) {
+	cl.glightning.StartUp(rpcFile, lightningDir)
+}
